@@ -359,6 +359,35 @@ func (b *builder) step(allowPath bool) {
 			b.emit(pdfmodel.Op{Name: "\"", Args: []float64{genDec(t, "aw", 0, 5, 1), genDec(t, "ac", 0, 3, 1)}, Text: b.text()})
 		case 17, 18:
 			b.textState()
+		case 19:
+			// q cm ... Q inside the text object (not in Figure 9, but common): the state is restored, and the next
+			// text is positioned through the text line matrix, which no consumer changes at Q
+			if b.m.Depth() < 8 {
+				b.emit(pdfmodel.Op{Name: "q"})
+				mat, _ := genMatrix(t, "cmInText")
+				b.emit(pdfmodel.Op{Name: "cm", Args: mat[:]})
+				for i, k := 0, rapid.IntRange(0, 2).Draw(t, "shownInside"); i < k; i++ {
+					b.ensureFont()
+					b.emit(pdfmodel.Op{Name: "Tj", Text: b.text()})
+				}
+				b.emit(pdfmodel.Op{Name: "Q"})
+				switch rapid.IntRange(0, 3).Draw(t, "afterQ") {
+				case 0:
+					b.emit(pdfmodel.Op{Name: "Td", Args: []float64{genDec(t, "tdx", -200, 200, 2), genDec(t, "tdy", -200, 200, 2)}})
+				case 1:
+					b.emit(pdfmodel.Op{Name: "T*"})
+				case 2:
+					b.emit(pdfmodel.Op{Name: "TD", Args: []float64{genDec(t, "tdx", -200, 200, 2), genDec(t, "tdy", -200, 200, 2)}})
+				default:
+					b.ensureFont()
+					b.emit(pdfmodel.Op{Name: "'", Text: b.text()})
+					b.labels["q-in-text"] = true
+					return
+				}
+				b.ensureFont()
+				b.emit(pdfmodel.Op{Name: "Tj", Text: b.text()})
+				b.labels["q-in-text"] = true
+			}
 		default:
 			b.emit(pdfmodel.Op{Name: "ET"})
 		}
